@@ -21,6 +21,8 @@ import (
 	"github.com/formancehq/ledger/internal/storage/ledgerstore"
 	"github.com/formancehq/ledger/verifharness/evid"
 	"github.com/formancehq/ledger/verifharness/sqlrec"
+	sharedapi "github.com/formancehq/stack/libs/go-libs/api"
+	"github.com/formancehq/stack/libs/go-libs/bun/bunpaginate"
 	"github.com/formancehq/stack/libs/go-libs/query"
 	"pgregory.net/rapid"
 )
@@ -251,16 +253,41 @@ func c04PITMetadata(rt *rapid.T, c *evid.Collector) {
 			fail("C04/pit-metadata/tx", "transaction %d as of %s carries metadata %s, replaying the history up to that instant gives %s", id, pitDesc, metaString(got.Metadata), metaString(wantTx[id]))
 		}
 	case "tx-list", "tx-list-filtered":
-		opts := ledgerstore.NewPaginatedQueryOptions(ledgerstore.PITFilterWithVolumes{PITFilter: ledgerstore.PITFilter{PIT: &lpit}}).WithPageSize(50)
+		opts := ledgerstore.NewPaginatedQueryOptions(ledgerstore.PITFilterWithVolumes{PITFilter: ledgerstore.PITFilter{PIT: &lpit}})
 		if what == "tx-list-filtered" {
 			opts = opts.WithQueryBuilder(query.Match("metadata[k]", "v"))
 		}
-		cur, err := store.GetTransactions(ctx, ledgerstore.NewGetTransactionsQuery(opts))
-		if len(eng.Unhandled) > 0 {
-			harnessError(rt, "mini engine: %s", clip(eng.Unhandled[0]))
+		// the client reads the list page by page (sometimes in one page): forward to the end, then back to the start
+		pageSize := rapid.SampledFrom([]int{50, 1, 1, 2, 3}).Draw(rt, "pmPageSize")
+		opts = opts.WithPageSize(uint64(pageSize))
+		render := func(cur *sharedapi.Cursor[ledger.ExpandedTransaction]) []string {
+			var out []string
+			for _, tx := range cur.Data {
+				out = append(out, fmt.Sprintf("%s%s", tx.ID, metaString(tx.Metadata)))
+			}
+			return out
 		}
-		if err != nil {
-			fail("C04/pit-metadata/tx-list-error", "GetTransactions failed: %v", err)
+		fetch := func(q ledgerstore.GetTransactionsQuery) *sharedapi.Cursor[ledger.ExpandedTransaction] {
+			cur, err := store.GetTransactions(ctx, q)
+			if len(eng.Unhandled) > 0 {
+				harnessError(rt, "mini engine: %s", clip(eng.Unhandled[0]))
+			}
+			if err != nil {
+				fail("C04/pit-metadata/tx-list-error", "GetTransactions failed: %v", err)
+				return nil
+			}
+			return cur
+		}
+		follow := func(tok string) *sharedapi.Cursor[ledger.ExpandedTransaction] {
+			var q ledgerstore.GetTransactionsQuery
+			if err := bunpaginate.UnmarshalCursor(tok, &q); err != nil {
+				fail("C04/pit-metadata/tx-list-error", "the list's own page token is not accepted: %v", err)
+				return nil
+			}
+			return fetch(q)
+		}
+		cur := fetch(ledgerstore.NewGetTransactionsQuery(opts))
+		if cur == nil {
 			return
 		}
 		var want, gotIDs []string
@@ -269,11 +296,37 @@ func c04PITMetadata(rt *rapid.T, c *evid.Collector) {
 				want = append(want, fmt.Sprintf("%d%s", id, metaString(wantTx[id])))
 			}
 		}
-		for _, tx := range cur.Data {
-			gotIDs = append(gotIDs, fmt.Sprintf("%s%s", tx.ID, metaString(tx.Metadata)))
+		pages := [][]string{render(cur)}
+		gotIDs = append(gotIDs, pages[0]...)
+		last := cur
+		for last.HasMore && last.Next != "" && len(pages) < 20 {
+			nx := follow(last.Next)
+			if nx == nil {
+				return
+			}
+			pages = append(pages, render(nx))
+			gotIDs = append(gotIDs, pages[len(pages)-1]...)
+			last = nx
 		}
 		if strings.Join(gotIDs, " ") != strings.Join(want, " ") {
-			fail("C04/pit-metadata/tx-list", "transactions listed as of %s (%s): %v\nreplaying the history up to that instant gives: %v", pitDesc, what, gotIDs, want)
+			fail("C04/pit-metadata/tx-list", "transactions listed as of %s (%s, %d per page): %v\nreplaying the history up to that instant gives: %v", pitDesc, what, pageSize, gotIDs, want)
+			return
+		}
+		// on the way back every page shows what it showed on the way out
+		for i := len(pages) - 1; i > 0; i-- {
+			if last.Previous == "" {
+				fail("C04/pit-metadata/tx-list-back", "page %d of the list as of %s has no way back", i, pitDesc)
+				return
+			}
+			pv := follow(last.Previous)
+			if pv == nil {
+				return
+			}
+			if got := render(pv); strings.Join(got, " ") != strings.Join(pages[i-1], " ") {
+				fail("C04/pit-metadata/tx-list-back", "page %d of the list as of %s (%d per page) shows %v when reached from the page after it, it showed %v on the way out (the history defines one list)", i-1, pitDesc, pageSize, got, pages[i-1])
+				return
+			}
+			last = pv
 		}
 	case "account":
 		acc := rapid.SampledFrom(accs).Draw(rt, "pmReadAcc")
